@@ -52,13 +52,38 @@ func (o op) String() string {
 
 type initCfg struct {
 	Key, ID, Ctr int // lengths; Key==0 => hash mode
+	// Used: the objects are not fresh when they are initialised: 1 = they were a hash object whose
+	// last call was an Absorb (phase down), 2 = a keyed object whose last call was an Encrypt,
+	// 3 = a keyed object whose last call was a Squeeze (phase up)
+	Used int `json:"used,omitempty"`
 }
 
 func (i initCfg) String() string {
-	if i.Key == 0 {
-		return "hash"
+	u := ""
+	if i.Used != 0 {
+		u = fmt.Sprintf("+reinitialised-after-use-%d", i.Used)
 	}
-	return fmt.Sprintf("keyed(k=%d,id=%d,ctr=%d)", i.Key, i.ID, i.Ctr)
+	if i.Key == 0 {
+		return "hash" + u
+	}
+	return fmt.Sprintf("keyed(k=%d,id=%d,ctr=%d)%s", i.Key, i.ID, i.Ctr, u)
+}
+
+// use puts an object into a used state before it is initialised (again).
+func use(c *cyclist.Cyclist, how int) {
+	buf := make([]byte, 9)
+	switch how {
+	case 1:
+		c.InitializeEmpty()
+		c.Absorb(fill(9, 7))
+	case 2:
+		c.Initialize(fill(16, 8), nil, nil)
+		c.Encrypt(buf, fill(9, 9))
+	case 3:
+		c.Initialize(fill(16, 8), nil, nil)
+		c.Absorb(fill(3, 1))
+		c.Squeeze(buf)
+	}
 }
 
 type prog struct {
@@ -104,6 +129,8 @@ type node struct {
 
 func newNode(ic initCfg) *node {
 	n := &node{}
+	use(&n.impl, ic.Used)
+	use(&n.twin, ic.Used)
 	if ic.Key == 0 {
 		n.impl.InitializeEmpty()
 		n.twin.Initialize(nil, nil, nil)
@@ -309,21 +336,25 @@ func main() {
 		}
 	}
 	alpha = append(alpha, op{opRatchet, 0})
-	inits := []initCfg{{0, 0, 0}}
+	inits := []initCfg{{}}
 	for _, k := range []int{1, 16, 32} {
 		for _, id := range []int{0, 5, 35} {
 			for _, c := range []int{0, 1, 8} {
-				inits = append(inits, initCfg{k, id, c})
+				inits = append(inits, initCfg{Key: k, ID: id, Ctr: c})
 			}
 		}
 	}
 	// extreme packing: key+id+1 exactly fills the 136-byte key block
-	inits = append(inits, initCfg{100, 35, 1}, initCfg{135, 0, 0}, initCfg{32, 0, 300})
+	inits = append(inits, initCfg{Key: 100, ID: 35, Ctr: 1}, initCfg{Key: 135}, initCfg{Key: 32, Ctr: 300})
+	// initialisation of an object that has been used before (must equal a fresh one)
+	for u := 1; u <= 3; u++ {
+		inits = append(inits, initCfg{Used: u}, initCfg{Key: 16, ID: 5, Ctr: 1, Used: u})
+	}
 	depth := 3
 	if r.Thorough() {
 		depth = 4
 	}
-	r.SetRule(fmt.Sprintf("all programs of <=%d ops over %d API operations (Absorb/Encrypt/Decrypt/Squeeze/SqueezeKey x operand lengths %v, Ratchet) from %d initialisations (hash; keyed with |key| x |id| x |counter| grid); after every op outputs and the full 200-byte state + phase/mode are compared with refcyclist, and a second real object mirroring the ops with Encrypt<->Decrypt swapped must stay identical; both the assembly and the generic permutation build; plus a direct permutation differential. distinct_nontrivial = distinct final internal states reached (hashed), measured.", depth, len(alpha), lens, len(inits)))
+	r.SetRule(fmt.Sprintf("all programs of <=%d ops over %d API operations (Absorb/Encrypt/Decrypt/Squeeze/SqueezeKey x operand lengths %v, Ratchet) from %d initialisations (hash; keyed with |key| x |id| x |counter| grid; six of them on objects that were used before - last call Absorb / Encrypt / Squeeze - and must equal fresh ones); after every op outputs and the full 200-byte state + phase/mode are compared with refcyclist, and a second real object mirroring the ops with Encrypt<->Decrypt swapped must stay identical; both the assembly and the generic permutation build; plus a direct permutation differential. distinct_nontrivial = distinct final internal states reached (hashed), measured.", depth, len(alpha), lens, len(inits)))
 
 	// direct permutation differential against refkeccak on structured states
 	permCases := 0
